@@ -11,6 +11,7 @@ mod c13;
 mod c14;
 mod c16;
 mod c18;
+mod c15;
 mod c19;
 mod codes;
 mod common;
@@ -68,6 +69,7 @@ fn main() {
                 }
                 "C14" => c14::run(&ctx),
                 "C18" => c18::run(&ctx),
+                "C15" => c15::run(&ctx),
                 "C19" => c19::run(&ctx),
                 "C16" => {
                     let mut o = c16::run(&ctx, "C16");
@@ -107,6 +109,8 @@ fn main() {
                 c05::replay(&v).unwrap_or(false)
             } else if h.starts_with("x2.hostile") || h == "c18.directed" {
                 c18::replay(&v).unwrap_or(false)
+            } else if h.starts_with("x2.server-shutdown") || h.starts_with("x2.client-goaway") {
+                c15::replay(&v).unwrap_or(false)
             } else if h.starts_with("x2.life") {
                 c19::replay(&v).unwrap_or(false)
             } else if h.starts_with("x2.acks") {
